@@ -1,4 +1,4 @@
-import BobModel.Proofs.C11Cache
+import BobModel.Proofs.C11Examples
 /-
 C11 — directory hashes are content exact and cache transparent.
 Property theorems about the model of `DirHasher` / `DirHasher.FileIndex` (pym/bob/utils.py).
@@ -77,10 +77,50 @@ theorem hashDir_iff (H : Bytes → Bytes) (hlen : ∀ b, (H b).length = 20) (es1
       (fun x hx => Or.inl (by simp [hashInputs, hx])) (fun x hx => Or.inr (by simp [hashInputs, hx])) hb
   · exact hashDir_of_canon_eq H es1 es2
 
+/-- what equality of canonical trees means, free of any order: two listings (of real directories:
+non-empty, slash free, pairwise different names) have the same canonical form iff they have the same
+set of `(name, canonical subtree)` pairs among their entries that are not ignored.  Unfolded
+recursively (`Tree.canon` is the identity on everything but directories) this is "the trees agree in
+names, file types, permission bits, contents and link targets". -/
+theorem canon_eq_iff (f1 f2 : Forest) (w1 : f1.Names) (w2 : f2.Names) :
+    f1.canon = f2.canon ↔
+    ∀ n c, (∃ t, (n, t) ∈ f1.toList ∧ ignored n t = false ∧ t.canon = c) ↔
+           (∃ t, (n, t) ∈ f2.toList ∧ ignored n t = false ∧ t.canon = c) := by
+  constructor
+  · intro h n c
+    rw [← Forest.mem_canon_iff f1 (n, c), ← Forest.mem_canon_iff f2 (n, c), h]
+  · intro h
+    apply Forest.strict_ext _ _ (Forest.canon_strict f1 w1) (Forest.canon_strict f2 w2)
+    intro e
+    rw [Forest.mem_canon_iff, Forest.mem_canon_iff]
+    exact h e.1 e.2
+
 /-- `hashDirectory(path)` as computed through the `NullIndex` object is the pure `hashDir` -/
 theorem nullIndex_eq_hashDir (H : Bytes → Bytes) (statOf : Bytes → Stat) (es : Forest) :
     H (es.canon.walk H nullCheck statOf [] ()).1 = hashDir H es :=
   walk_null H statOf es
+
+/-! ### 3. visit order -/
+
+/-- **visit_order_ascending**: on a real directory tree (names non-empty, without `/`, pairwise
+different in each directory) the index names — the paths relative to the hashed directory of all
+regular files and symlinks that are not ignored — are visited in strictly ascending byte order.
+This is what the merge walk over the sorted old index relies on, and it is the reason for the
+`name + "/"` sort key of directories. -/
+theorem visit_order_ascending (es : Forest) (w : es.Names) :
+    ((visited es).map Prod.fst).Pairwise (fun a b => bytesLt a b = true) := by
+  rw [List.pairwise_map]
+  exact visited_sorted es w
+
+/-- in particular no two hashed files share an index name, so the digest of a hashed file is a
+function of its index name: every single state is `Coherent` -/
+theorem coherent_of_distinct (H : Bytes → Bytes) (statOf : Bytes → Stat) (es : Forest) (w : es.Names) :
+    ∃ D, Coherent H D ⟨es, statOf⟩ :=
+  ⟨digestAt H es, coherent_of_names H statOf es w⟩
+
+/-- every directory of the canonical tree is strictly sorted by the sort key -/
+theorem canon_sorted (es : Forest) (w : es.Names) : es.canon.Strict :=
+  Forest.canon_strict es w
 
 /-! ### 4. cache transparency -/
 
@@ -129,5 +169,73 @@ theorem cache_history_from_scratch (H : Bytes → Bytes) (D : Bytes → Stat →
     (hco : ∀ st ∈ hist, Coherent H D st) :
     runHistory H none hist = hist.map (fun st => hashDir H st.es) :=
   cache_history H D hist none hco (fun st _ => no_index_sound H st.statOf st.es)
+
+/-! ### non-vacuity: concrete instances of the hypotheses (definitions in Proofs/C11Examples.lean) -/
+
+section examples
+open DirHash.Ex
+
+/-- non-vacuity of `hashDir_iff`: well-formed trees, a length-20 hash without collision on the hashed
+strings, different canonical trees - and therefore different hashes -/
+example : exA.WF ∧ exB.WF ∧ CollisionFree exH (fun x => x ∈ hashInputs exH exA ∨ x ∈ hashInputs exH exB) ∧
+    exA.canon ≠ exB.canon ∧ hashDir exH exA ≠ hashDir exH exB := by
+  have wA : exA.WF := by simp [exA, Forest.WF, Tree.WF, NulFree]
+  have wB : exB.WF := by simp [exB, Forest.WF, Tree.WF, NulFree]
+  have hcf : CollisionFree exH (fun x => x ∈ hashInputs exH exA ∨ x ∈ hashInputs exH exB) := by
+    intro a b ha hb hab
+    simp only [exA_inputs, exB_inputs, List.mem_cons, List.not_mem_nil, or_false] at ha hb
+    rcases ha with (rfl | rfl) | (rfl | rfl) <;> rcases hb with (rfl | rfl) | (rfl | rfl) <;>
+      first | rfl | (exfalso; revert hab; decide)
+  have hne : exA.canon ≠ exB.canon := by
+    simp [exA, exB, Forest.canon, Tree.canon, ignored, Tree.isDir, Forest.insert, Consts.C11.ignoreDirs, Consts.C11.ignoreFiles]
+  refine ⟨wA, wB, hcf, hne, ?_⟩
+  intro h
+  exact hne ((hashDir_iff exH exH_len exA exB wA wB hcf).mp h)
+
+/-- an ignored directory and the listing order do not matter -/
+example : hashDir exH exB = hashDir exH (.cons [46, 103, 105, 116] (.dir 0o700 .nil) (.cons [97] (.file 0o755 [1]) .nil)) :=
+  hashDir_of_canon_eq _ _ _ (by rfl)
+
+/-- non-vacuity of `cached_eq_uncached`: a sound index that is neither sorted nor fresh -/
+example : Sound exH exStat exTree exIx ∧ (hashDirCached exH exStat exIx exTree).1 = hashDir exH exTree := by
+  have hs : Sound exH exStat exTree exIx := by
+    intro r hr p t hp hn hst
+    rw [exTree_visited] at hp
+    simp only [exIx, recsOf, Option.getD_some, List.mem_cons, List.not_mem_nil, or_false] at hr
+    simp only [List.mem_cons, Prod.mk.injEq, List.not_mem_nil, or_false] at hp
+    rcases hr with rfl | rfl | rfl <;> rcases hp with ⟨rfl, rfl⟩ | ⟨rfl, rfl⟩ <;>
+      first | rfl | (exfalso; revert hn; decide) | (exfalso; revert hst; decide)
+  exact ⟨hs, cached_eq_uncached exH exStat exTree exIx hs⟩
+
+/-- non-vacuity of `cache_history` -/
+example : (∀ st ∈ [exS1, exS2], Coherent exH exD st) ∧
+    runHistory exH none [exS1, exS2] = [hashDir exH exS1.es, hashDir exH exS2.es] ∧
+    hashDir exH exS1.es ≠ hashDir exH exS2.es := by
+  have hco : ∀ st ∈ [exS1, exS2], Coherent exH exD st := by
+    intro st hst p t hp
+    simp only [List.mem_cons, List.not_mem_nil, or_false] at hst
+    rcases hst with rfl | rfl
+    · have hv : visited exS1.es = [([97], .file 0o644 [1])] := by rfl
+      rw [hv] at hp
+      simp only [List.mem_singleton, Prod.mk.injEq] at hp
+      obtain ⟨rfl, rfl⟩ := hp
+      rfl
+    · have hv : visited exS2.es = [([97], .file 0o644 [2])] := by rfl
+      rw [hv] at hp
+      simp only [List.mem_singleton, Prod.mk.injEq] at hp
+      obtain ⟨rfl, rfl⟩ := hp
+      rfl
+  refine ⟨hco, cache_history_from_scratch exH exD _ hco, by decide⟩
+
+/-- non-vacuity of `visit_order_ascending`: `a.b` is visited before `a/x` -/
+example : exO.Names ∧ (visited exO).map Prod.fst = [[97, 46, 98], [97, 47, 120]] := by
+  refine ⟨?_, by rfl⟩
+  simp [exO, Forest.Names, Tree.Names, SlashFree, Forest.toList]
+
+/-- non-vacuity of `dirBlob_decodable`: the blob of `exTree`'s canonical listing -/
+example : (exTree.canon).WF ∧ (exTree.canon.entries exH).length = 2 := by
+  refine ⟨Forest.canon_WF _ (by simp [exTree, Forest.WF, Tree.WF, NulFree]), by rfl⟩
+
+end examples
 
 end C11
